@@ -303,6 +303,53 @@ theorem resize_refines (env : Env) (v : Vec) (hv : v.WF) (newLen : Nat) (value :
       · rw [List.take_of_length_le (by omega)]
       · rfl
 
+/-- `pop_if(pred)`: empty → `None` without calling `pred`; `pred(last)` true → the last element is
+    popped; false → nothing changes -/
+theorem pop_if_refines (v : Vec) (hv : v.WF) (b : Nat) (o : List Outcome) :
+    ∃ r, popIf v (.ret b :: o) = .ok r ∧ r.vec.cap = v.cap ∧
+      (match v.abs.getLast? with
+       | none => r.vec.abs = v.abs ∧ r.exit = .ret none ∧ r.rest = .ret b :: o
+       | some x => if b ≠ 0 then r.vec.abs = v.abs.dropLast ∧ r.exit = .ret (some x) ∧ r.rest = o
+                   else r.vec.abs = v.abs ∧ r.exit = .ret none ∧ r.rest = o) := by
+  have ⟨hs, hl⟩ := hv.slots_eq
+  have hcap := hv.len_le_cap
+  have heq := popIf_eq v v.abs (.ret b :: o) hs hl
+  have hlen : (popIfSpec v.abs (.ret b :: o)).final.length ≤ v.cap := by
+    unfold popIfSpec; split <;> (try split) <;> simp <;> omega
+  obtain ⟨r, h1, h2, h3, h4, -, h6⟩ := refines_of_eq heq hlen
+  refine ⟨r, h1, h6, ?_⟩
+  rw [h2, h3, h4]; unfold popIfSpec
+  cases hx : v.abs.getLast? with
+  | none => simp
+  | some x => simp only; split <;> simp
+
+/-- `resize_with(new_len, f)` with `f` returning the values `ids`: they are appended in order; shrinking truncates -/
+theorem resize_with_refines (env : Env) (v : Vec) (hv : v.WF) (newLen : Nat) (ids : List Id) (o : List Outcome)
+    (hb : env.bombs = []) (hroom : room env v (newLen - v.len) = true) (hids : ids.length = newLen - v.len) :
+    ∃ r, resizeWith env v newLen (rets ids ++ o) = .ok r ∧ r.exit = .ret () ∧ r.vec.len ≤ r.vec.cap ∧
+      r.vec.abs = (if newLen > v.len then v.abs ++ ids else v.abs.take newLen) := by
+  have ⟨hs, hl⟩ := hv.slots_eq
+  have hcap := hv.len_le_cap
+  have heq := resizeWith_eq env v v.abs newLen (rets ids ++ o) hs hl
+  rw [hroom] at heq
+  by_cases h : newLen > v.len
+  · have ⟨g, hc⟩ := grown_grows' (env := env) (n := newLen - v.len) hv
+    have := hc hroom
+    have h' : newLen > v.abs.length := by omega
+    have hn : newLen - v.abs.length = ids.length := by omega
+    simp only [h, ↓reduceIte, resizeWithSpec, h', extendCloneSpecR, hn, extendCloneSpec_rets] at heq ⊢
+    obtain ⟨r, h1, h2, h3, -, h5, -⟩ := refines_of_eq heq (by simp; omega)
+    exact ⟨r, h1, h3, h5, h2⟩
+  · have h' : ¬ newLen > v.abs.length := by omega
+    simp only [h, ↓reduceIte, resizeWithSpec, h', hb] at heq ⊢
+    have hlen := truncateSpec_len [] v.abs newLen
+    obtain ⟨r, h1, h2, h3, -, h5, -⟩ := refines_of_eq heq (by simp only; omega)
+    refine ⟨r, h1, ?_, h5, ?_⟩
+    · rw [h3]; simp only; unfold truncateSpec; split <;> simp [dropExit]
+    · rw [h2]; simp only; unfold truncateSpec; split
+      · rw [List.take_of_length_le (by omega)]
+      · rfl
+
 /-! ## drain / into_iter / extract_if / map_in_place / append -/
 
 /-- `drain(start..end)`: panics exactly for `start > end` or `end > len` (and then changes nothing);
